@@ -32,30 +32,45 @@ def c20(ctx: Ctx):
     if ctx.replay:
         write_ndjson(cases, [ctx.replay["violation"]["c"]])
     else:
-        maxmut, stride = (1, 1) if ctx.tier == "quick" else (2, 32)
-        lexstride = 5 if ctx.tier == "quick" else 1
+        # Tiers.  The generators know the full products; a registered run takes seeded slices of them (TLC-side: the strides
+        # below select nodes / graphs by VERIF_SEED).  VERIF_C20_FULL=1 (manual use, not registered) runs the full products.
+        #   quick:    type / structure operators at every node, schema operators at every schema object, reference operators on 1/2 of the
+        #             nodes, in the default run configuration; the other configurations (entry points, switch off, YAML) of the reference
+        #             operators / null / delete / truncate on the nodes of that half that are also in a 1/5 slice; sparse bases on 1/5 of
+        #             their nodes; lexical operators on 1/15 of the nodes; numeric keyword operators on 1/6 of the schema objects; graphs of
+        #             <= 2 steps exhaustively (default + all-external; one-factor-at-a-time for <= 1 step) + 1/12 of the 3-step graphs
+        #   thorough: all of the above at stride 1 except lexical operators (1/2 of the nodes); pairs = first mutation on 1/28 of the nodes
+        #             x second mutation on 1/64 of the nodes (all of them run); graphs of <= 3 steps exhaustively + 1/4 of the 4-step graphs
+        full = os.environ.get("VERIF_C20_FULL", "") == "1"
+        T = dict(quick=dict(maxmut=1, pair=1, first=1, var=5, sparse=5, lex=15, num=6, ref=2, g=(3, 1, 1, 2, 12)),
+                 thorough=dict(maxmut=2, pair=64, first=28, var=1, sparse=1, lex=2, num=1, ref=1, g=(4, 1, 1, 3, 4)))[ctx.tier]
+        if full:
+            T = dict(quick=dict(maxmut=1, pair=1, first=1, var=1, sparse=1, lex=1, num=1, ref=1, g=(3, 1, 1, 3, 1)),
+                     thorough=dict(maxmut=2, pair=32, first=1, var=1, sparse=1, lex=1, num=1, ref=1, g=(4, 2, 2, 4, 1)))[ctx.tier]
+        maxmut, stride, lexstride = T["maxmut"], T["pair"], T["lex"]
         sparse_ops = ('{"delete", "to_null", "to_empty_obj"}' if ctx.tier == "quick" else
                       '{"to_null", "to_bool", "to_num", "to_str", "to_arr", "to_obj", "to_empty_obj", "to_empty_str", "delete", "dup_key_other_type", "nest_deep", "huge_number", "ref_dangling", "ref_hash_only", "ref_empty"}')
-        cfg = ("SPECIFICATION Spec\nCONSTANTS NNodes = %d\n MaxMut = %d\n PairStride = %d\n LexStride = %d\n Seed = %d\n SparseNodes = 30\n SparseOps = %s\nINVARIANT Emit\nCHECK_DEADLOCK FALSE\n"
-               % (nn, maxmut, stride, lexstride, ctx.seed, sparse_ops))
+        cfg = ("SPECIFICATION Spec\nCONSTANTS NNodes = %d\n MaxMut = %d\n PairStride = %d\n FirstStride = %d\n VarStride = %d\n SparseStride = %d\n LexStride = %d\n NumStride = %d\n RefStride = %d\n Seed = %d\n SparseNodes = 30\n SparseOps = %s\nINVARIANT Emit\nCHECK_DEADLOCK FALSE\n"
+               % (nn, maxmut, stride, T["first"], T["var"], T["sparse"], lexstride, T["num"], T["ref"], ctx.seed, sparse_ops))
         open(ctx.spec("Gen_C20_run.cfg"), "w").write(cfg)
         # development aid: VERIF_C20_ONLY=graph|mut restricts the run to one half of the universe (a full run sets nothing)
         only = os.environ.get("VERIF_C20_ONLY", "")
         if only in ("", "mut"):
             ctx.tlc("Gen_C20", "Gen_C20_run.cfg", label="F generate mutation sequences (BFS)", timeout=2400)
         n = ctx.unquote(ctx.spec("cases.ndjson"), cases)
-        if ctx.tier == "thorough":
-            # the pair level is large: keep every single mutation and a seeded 12% of the pairs
+        if ctx.tier == "thorough" and full:
+            # the full pair level is large: keep every single mutation and a seeded 12% of the pairs
             rng0 = random.Random(ctx.seed)
             keep = [c for c in read_ndjson(cases) if len(c["muts"]) == 1 or rng0.random() < 0.12]
             write_ndjson(cases, keep)
             n = len(keep)
         log("[gen] %d cases over %d nodes" % (n, nn))
         # reference graphs (spec/RefGraph.tla): every lasso of the kind graph up to the bound
-        gmax, gschema, gofat, gtier = (3, 1, 1, "ofat") if ctx.tier == "quick" else (4, 1, 1, "ofat")
+        gmax, gschema, gofat, gfull, gstride = T["g"]
+        gtier = "ofat"
         gcfg = ("SPECIFICATION GSpec\nCONSTANTS GMaxSteps = %d\n GSites = {\"properties\", \"items\", \"additionalProperties\", \"allOf\", \"anyOf\", \"oneOf\", \"not\"}\n"
-                " GSplits = {0, 1, 2, 3, 4, 5}\n GAliasHop = {TRUE, FALSE}\n GMaxSchemaSteps = %d\n GTier = \"%s\"\n GOfatSteps = %d\nINVARIANT GEmit\nCHECK_DEADLOCK FALSE\n"
-                % (gmax, gschema, gtier, gofat))
+                " GSplits = {0, 1, 2, 3, 4, 5}\n GAliasHop = {TRUE, FALSE}\n GMaxSchemaSteps = %d\n GTier = \"%s\"\n GOfatSteps = %d\n GFullSteps = %d\n GStride = %d\n GSeed = %d\nINVARIANT GEmit\nCHECK_DEADLOCK FALSE\n"
+                % (gmax, gschema, gtier, gofat, gfull, gstride, ctx.seed))
         open(ctx.spec("Gen_C20G_run.cfg"), "w").write(gcfg)
         if os.path.exists(ctx.spec("cases.ndjson")):
             os.remove(ctx.spec("cases.ndjson"))
@@ -66,11 +81,25 @@ def c20(ctx: Ctx):
         with open(cases, "a") as f:
             for l in open(gcases):
                 f.write(l)
+        # shared targets (spec/RefShare.tla): two references of two kinds to one external file
+        scfg = "SPECIFICATION SSpec\nCONSTANTS SContents = \"%s\"\nINVARIANT SEmit\nCHECK_DEADLOCK FALSE\n" % ("own" if ctx.tier == "quick" and not full else "all")
+        open(ctx.spec("Gen_C20S_run.cfg"), "w").write(scfg)
+        if os.path.exists(ctx.spec("cases.ndjson")):
+            os.remove(ctx.spec("cases.ndjson"))
+        if only in ("", "graph"):
+            ctx.tlc("Gen_C20S", "Gen_C20S_run.cfg", label="F generate shared-target documents", timeout=600)
+        scases = os.path.join(ctx.scratch, "scases.ndjson")
+        ns = ctx.unquote(ctx.spec("cases.ndjson"), scases)
+        with open(cases, "a") as f:
+            for l in open(scases):
+                f.write(l)
+        log("[gen] %d shared-target cases" % ns)
+        n += ns
         log("[gen] %d reference-graph cases (<= %d steps, <= %d chained schema sites)" % (ng, gmax, gschema))
         n += ng
-        ctx.extra["graph_constants"] = dict(GMaxSteps=gmax, GMaxSchemaSteps=gschema, GTier=gtier, GOfatSteps=gofat, cases=ng)
-        ctx.exhaustive = ctx.tier == "quick" and only == ""
-        ctx.extra["generator_constants"] = dict(NNodes=nn, MaxMut=maxmut, PairStride=stride, LexStride=lexstride)
+        ctx.extra["graph_constants"] = dict(GMaxSteps=gmax, GMaxSchemaSteps=gschema, GTier=gtier, GOfatSteps=gofat, GFullSteps=gfull, GStride=gstride, cases=ng)
+        ctx.exhaustive = False       # seeded slices of the products (the full products: VERIF_C20_FULL=1)
+        ctx.extra["generator_constants"] = dict(NNodes=nn, MaxMut=maxmut, PairStride=stride, FirstStride=T["first"], VarStride=T["var"], SparseStride=T["sparse"], LexStride=lexstride, full=full)
     ctx.build_driver()
     logp = os.path.join(ctx.scratch, "log.ndjson")
     ctx.drive(cases, logp, timeout=5400, shards=14)
@@ -83,13 +112,15 @@ def c20(ctx: Ctx):
         ctx.nontrivial.add(casehash(o["c"]))
         k = o["obs"]["load"]
         outcomes[k] = outcomes.get(k, 0) + 1
-        if o["c"]["base"]["kind"] == "graph":
+        if o["c"]["base"]["kind"] in ("graph", "share"):
             goutcomes[k] = goutcomes.get(k, 0) + 1
         if rng.random() < 6.0 / 20000:
             ctx.samples.append(dict(c=o["c"], obs=o["obs"]))
     ctx.extra["load_outcomes"] = outcomes
     ctx.extra["graph_load_outcomes"] = goutcomes
-    ctx.rule = ("every closed walk (lasso) of the object-kind graph of <= 3 (quick) / 4 (thorough) steps, the default run configuration for all and one-factor-at-a-time variations (split over two files at every position, alias hop, unused, entry point, switch, YAML) for the short ones; "
-                "every mutation operator at every node of the base document (quick: single mutations; thorough: + pairs on a seeded node slice, 12% sampled) "
-                "x entry point (all three for JSON with external refs allowed; data entry also in YAML and with the switch off); every case is distinct")
+    ctx.rule = ("seeded slices (TLC-side strides on VERIF_SEED) of two products. Graphs: every closed walk (lasso) of the object-kind graph -- quick: <= 2 steps exhaustively + 1/8 of the 3-step ones; "
+                "thorough: <= 3 steps + 1/4 of the 4-step ones -- each in the default run configuration and wholly in an external file, the <= 1-step ones also one factor at a time "
+                "(split position, alias hop, unused, entry point, switch, YAML). Mutations: every tree operator at every node of the base document in the default configuration; the other "
+                "configurations (entry points, switch off, YAML) for reference operators / null / delete / truncate on 1/8 (quick) or all (thorough) of the nodes; lexical operators on 1/10 (quick) or 1/2 "
+                "(thorough) of the nodes; sparse two-file bases; blobs; thorough: + pairs (first mutation on 1/28, second on 1/64 of the nodes). VERIF_C20_FULL=1 runs the full products. Every case is distinct")
     ctx.validate("Trace_C20", "Trace_C20.cfg", logp, chunk_lines=4000)
